@@ -109,7 +109,8 @@ pub async fn make_socket(ctx: &Context, cfg: &HashMap<String, String>) -> Result
         }
       }
       "cork" => set_i32(&s, o::TCP_CORK, v.parse().unwrap()).await?,
-      "zc" => {}
+      "zc" => set_i32(&s, o::IO_URING_SNDZEROCOPY, v.parse().unwrap()).await?,
+      "ms" => set_i32(&s, o::IO_URING_RCVMULTISHOT, v.parse().unwrap()).await?,
       "max" => s.set_option_raw(o::MAXMSGSIZE, &v.parse::<i64>().unwrap().to_ne_bytes()).await?,
       "sndhwm" => set_i32(&s, o::SNDHWM, v.parse().unwrap()).await?,
       "rcvhwm" => set_i32(&s, o::RCVHWM, v.parse().unwrap()).await?,
@@ -2006,7 +2007,7 @@ async fn linger(p: &[&str]) -> String {
 /// injected anywhere. ops: `b<i><t|p|n>` bind socket i on tcp/ipc/inproc; `c<i>-<j>` connect i to j's first endpoint;
 /// `d<i>` connect i to a dead tcp port (retries); `h<i>` a raw peer connects to i's tcp endpoint and sends half a
 /// greeting; `s<i>` one send (SNDTIMEO 50 ms); `S<i>` a background task that keeps sending (blocks at the HWM);
-/// `R<i>` a background task blocked in recv(); `o<i>` set an option; `m<i>` open a monitor; `x<i>` close() and wait;
+/// `R<i>` a background task blocked in recv(); `B<i>` SNDTIMEO -1 from here on; `o<i>` set an option; `m<i>` open a monitor; `x<i>` close() and wait;
 /// `X<i>` close() from a background task; `D<i>` drop the handle; `T` Context::term() and wait; `t` term() from a
 /// background task; `w<ms>` sleep. Afterwards (term() is called if the script did not): close/term returned in bounded
 /// time and nothing panicked; operations on every socket fail promptly; every endpoint can be bound again; no task of the
@@ -2057,6 +2058,7 @@ async fn lifecycle_inner(types: Vec<String>, script: Vec<String>, rt: tokio::run
   let mut monitors = Vec::new();
   let mut problems: Vec<String> = Vec::new();
   let mut term_called = false;
+  let mut blocking: Vec<bool> = vec![false; types.len()];
   let mut term_bg: Option<tokio::task::JoinHandle<Result<(), ZmqError>>> = None;
   let idx = |a: &str| -> usize { a.parse::<usize>().unwrap_or(0).min(types.len() - 1) };
   for op in &script {
@@ -2116,9 +2118,20 @@ async fn lifecycle_inner(types: Vec<String>, script: Vec<String>, rt: tokio::run
               s.send(Msg::from_static(b"x")).await
             }
           };
-          if tokio::time::timeout(Duration::from_secs(5), fut).await.is_err() {
+          if blocking[i] {
+            // SNDTIMEO -1: the call may wait for as long as it likes; the harness gives up on it (drops the future)
+            let _ = tokio::time::timeout(Duration::from_millis(60), fut).await;
+          } else if tokio::time::timeout(Duration::from_secs(5), fut).await.is_err() {
             problems.push(format!("key=op-hangs send on socket {} did not return in 5 s (SNDTIMEO 50 ms)", i));
           }
+        }
+      }
+      "B" => {
+        // from here on socket i blocks without limit in send (SNDTIMEO -1, the default)
+        let i = idx(arg);
+        if let Some(s) = socks[i].as_ref() {
+          let _ = tokio::time::timeout(Duration::from_secs(5), set_i32(s, o::SNDTIMEO, -1)).await;
+          blocking[i] = true;
         }
       }
       "S" | "R" => {
@@ -2305,8 +2318,13 @@ async fn churn(p: &[&str]) -> String {
   let msgs: usize = p[3].parse().unwrap();
   let size: usize = p[4].parse().unwrap();
   let fd_count = || std::fs::read_dir("/proc/self/fd").map(|d| d.count()).unwrap_or(0);
+  // `<receiver options>/<sender options>`, or one list for both
+  let (pull_extras, push_extras) = match extras.split_once('/') {
+    Some((a, b)) => (a.to_string(), b.to_string()),
+    None => (extras.clone(), extras.clone()),
+  };
   let mk_cfg = |ty: &str| {
-    let mut c = parse_kv(&extras);
+    let mut c = parse_kv(if ty == "PULL" { &pull_extras } else { &push_extras });
     c.insert("type".into(), ty.into());
     c
   };
@@ -2405,8 +2423,19 @@ async fn churn(p: &[&str]) -> String {
 async fn fanin(p: &[&str]) -> String {
   let extras = p[1].to_string();
   let n: usize = p[2].parse().unwrap();
+  let per: usize = p.get(3).and_then(|x| x.parse().ok()).unwrap_or(3);
+  let size: usize = p.get(4).and_then(|x| x.parse().ok()).unwrap_or(8).max(8);
+  // `close`: every sender closes its socket as soon as its last send() has returned (LINGER decides what that means)
+  // `closeint`: the same, and only the integrity of what arrives is judged (how much arrives is LINGER's business, C15)
+  let close_early = p.get(5).map(|x| *x == "close" || *x == "closeint").unwrap_or(false);
+  let integrity_only = p.get(5).map(|x| *x == "closeint").unwrap_or(false);
+  // `<receiver options>/<sender options>`, or one list for both
+  let (pull_extras, push_extras) = match extras.split_once('/') {
+    Some((a, b)) => (a.to_string(), b.to_string()),
+    None => (extras.clone(), extras.clone()),
+  };
   let mk_cfg = |ty: &str| {
-    let mut c = parse_kv(&extras);
+    let mut c = parse_kv(if ty == "PULL" { &pull_extras } else { &push_extras });
     c.insert("type".into(), ty.into());
     c
   };
@@ -2415,7 +2444,7 @@ async fn fanin(p: &[&str]) -> String {
     Ok(s) => s,
     Err(e) => return format!("setup-error {}", err_class(&e)),
   };
-  let _ = set_i32(&pull, o::RCVTIMEO, 3000).await;
+  let _ = set_i32(&pull, o::RCVTIMEO, 4000).await;
   if pull.bind("tcp://127.0.0.1:0").await.is_err() {
     return "setup-error bind".into();
   }
@@ -2426,53 +2455,98 @@ async fn fanin(p: &[&str]) -> String {
       Ok(s) => s,
       Err(e) => return format!("setup-error {}", err_class(&e)),
     };
-    let _ = set_i32(&s, o::SNDTIMEO, 3000).await;
+    let _ = set_i32(&s, o::SNDTIMEO, 5000).await;
     if s.connect(&ep).await.is_err() {
       return "setup-error connect".into();
     }
     pushes.push(s);
   }
   tokio::time::sleep(Duration::from_millis(300)).await;
-  let mut send_failures = 0usize;
+  // all senders at once
+  let mut tasks = Vec::new();
   for (i, s) in pushes.iter().enumerate() {
-    for k in 0..3u8 {
-      if s.send(Msg::from_vec(vec![i as u8, k])).await.is_err() {
-        send_failures += 1;
+    let s = s.clone();
+    tasks.push(tokio::spawn(async move {
+      let mut failures = 0usize;
+      for k in 0..per {
+        let mut body = vec![(i % 251) as u8; size];
+        body[0..4].copy_from_slice(&(i as u32).to_be_bytes());
+        body[4..8].copy_from_slice(&(k as u32).to_be_bytes());
+        if s.send(Msg::from_vec(body)).await.is_err() {
+          failures += 1;
+        }
       }
-    }
+      if close_early {
+        let _ = tokio::time::timeout(Duration::from_secs(20), s.close()).await;
+      }
+      failures
+    }));
   }
   let mut seen = std::collections::BTreeSet::new();
-  while seen.len() < 3 * n {
+  let mut damaged: Option<String> = None;
+  let mut last_seq: HashMap<u32, u32> = HashMap::new();
+  while seen.len() < per * n {
     match pull.recv().await {
       Ok(m) => {
         let b = m.data().unwrap_or(&[]).to_vec();
-        if b.len() == 2 {
-          seen.insert((b[0], b[1]));
+        if b.len() != size {
+          damaged = Some(format!("a message of {} bytes arrived, every message sent has {}", b.len(), size));
+          break;
         }
+        let i = u32::from_be_bytes([b[0], b[1], b[2], b[3]]);
+        let k = u32::from_be_bytes([b[4], b[5], b[6], b[7]]);
+        if let Some(pos) = b[8..].iter().position(|x| *x != (i % 251) as u8) {
+          let at = 8 + pos;
+          damaged = Some(format!(
+            "message {}.{} has a damaged body: from offset {} it reads {}",
+            i,
+            k,
+            at,
+            hex::encode(&b[at..(at + 16).min(b.len())])
+          ));
+          break;
+        }
+        if let Some(prev) = last_seq.get(&i) {
+          if k <= *prev {
+            damaged = Some(format!("connection {}: message {} after {}", i, k, prev));
+            break;
+          }
+        }
+        last_seq.insert(i, k);
+        seen.insert((i, k));
       }
       Err(_) => break,
     }
+  }
+  let mut send_failures = 0usize;
+  for t in tasks {
+    send_failures += tokio::time::timeout(Duration::from_secs(8), t).await.ok().and_then(|r| r.ok()).unwrap_or(per);
   }
   for s in &pushes {
     let _ = tokio::time::timeout(Duration::from_secs(5), s.close()).await;
   }
   let _ = tokio::time::timeout(Duration::from_secs(5), pull.close()).await;
   let _ = tokio::time::timeout(Duration::from_secs(12), ctx.term()).await;
-  if seen.len() == 3 * n && send_failures == 0 {
+  if let Some(d) = damaged {
+    return format!("ORACLE-FAIL key=fanin-damaged {} ({} simultaneous connections)", d, n);
+  }
+  if integrity_only {
+    return "fanin=intact".into();
+  }
+  if seen.len() == per * n && send_failures == 0 {
     "fanin=ok".into()
   } else {
-    let silent: Vec<usize> = (0..n).filter(|i| !(0..3u8).any(|k| seen.contains(&(*i as u8, k)))).collect();
+    let silent: Vec<usize> = (0..n).filter(|i| !(0..per).any(|k| seen.contains(&(*i as u32, k as u32)))).collect();
     format!(
       "ORACLE-FAIL key=fanin-lost {} of {} messages arrived from {} simultaneous connections ({} sends refused; nothing at all from {} of them)",
       seen.len(),
-      3 * n,
+      per * n,
       n,
       send_failures,
       silent.len()
     )
   }
 }
-
 
 // ---------------------------------------------------------------------------------------------------------------
 // C18: encrypted connections through a recording / tampering proxy
